@@ -7,6 +7,7 @@ import (
 	"bytes"
 	"crypto/sha256"
 	"fmt"
+	"net/url"
 	"sort"
 	"strings"
 
@@ -87,6 +88,16 @@ func (w *World) recvOracle(c *tibctesting.TestChain, p packettypes.Packet, h uin
 	if w.recvOK[key] > 1 {
 		w.hit("C02", "packet-received-twice "+key)
 	}
+	// the same, whatever spelling of the chain names the message used (the Tendermint client's
+	// Merkle path is handled as a URL path)
+	if us, err1 := url.PathUnescape(p.SourceChain); err1 == nil {
+		if ud, err2 := url.PathUnescape(p.DestinationChain); err2 == nil && (us != p.SourceChain || ud != p.DestinationChain) {
+			key2 := fmt.Sprintf("%s|%s/%s/%d", c.ChainName, us, ud, p.Sequence)
+			if w.recvOK[key2] > 0 {
+				w.hit("C02", fmt.Sprintf("packet-received-again-under-another-spelling-of-its-chain-names %s as %s", key2, pkeyStr(p)))
+			}
+		}
+	}
 	if p.Sequence <= cleanBefore {
 		w.hit("C10", "receive-accepted-at-or-below-clean-point "+key)
 	}
@@ -122,6 +133,12 @@ func (w *World) ackOracle(c *tibctesting.TestChain, p packettypes.Packet, ack []
 	want := sha256.Sum256(p.Data)
 	if !bytes.Equal(commitBefore, want[:]) {
 		w.hit("C03", "ack-accepted-without-holding-the-packet-commitment "+key)
+	}
+	if c.ChainName == p.SourceChain && p.Port != "tibcmock" && p.Port != "NFT" && p.Port != "MT" {
+		// no application is bound to the port: the acknowledgement consumed the commitment and no
+		// callback ran (a refund, if it was an error acknowledgement, can never happen)
+		w.hit("C13", fmt.Sprintf("ack-accepted-on-the-source-for-a-port-without-application port=%s %s", p.Port, key))
+		w.hit("C03", fmt.Sprintf("ack-accepted-on-the-source-for-a-port-without-application port=%s %s", p.Port, key))
 	}
 	q := w.Chain(ackProver(c, p))
 	wantAck := sha256.Sum256(ack)
